@@ -114,7 +114,13 @@ func (b *Built) observe(r xsel.Result) Val {
 		for i, c := range x {
 			ids[i] = b.idOf(c)
 			if c != nil {
-				pos[i] = c.Pos()
+				p, ok := safePos(c)
+				if !ok {
+					// a cursor in the result that cannot even be asked for its position (e.g. an interface holding a nil
+					// pointer): the observation is "not a node-set of this document"
+					return Val{T: "badcursor"}
+				}
+				pos[i] = p
 			}
 		}
 		return Val{T: "ns", Seq: ids, Pos: pos}
@@ -128,6 +134,16 @@ func (b *Built) observe(r xsel.Result) Val {
 		return Val{T: "nil"}
 	}
 	return Val{T: fmt.Sprintf("?%T", r)}
+}
+
+// safePos asks a cursor handed out by the library for its position; a cursor that panics is reported, not fatal
+func safePos(c store.Cursor) (p int, ok bool) {
+	defer func() {
+		if recover() != nil {
+			p, ok = 0, false
+		}
+	}()
+	return c.Pos(), true
 }
 
 func (b *Built) idOf(c store.Cursor) int {
@@ -261,6 +277,9 @@ func (b *Built) orderOK(e *Expr, got xsel.Result, env *Env) (bool, string) {
 		ids[i] = b.idOf(c)
 		if ids[i] <= 0 {
 			return false, "result contains a cursor that is not a node of the queried document"
+		}
+		if _, ok := safePos(c); !ok {
+			return false, "result contains a cursor that panics when asked for its position"
 		}
 	}
 	asc, dsc := true, true
